@@ -675,10 +675,9 @@ fn main() {
                 let r = catch_unwind(AssertUnwindSafe(|| capi_op(tok)));
                 match r {
                     Ok(s) => obs.push(s),
-                    Err(_) => {
-                        obs.push("p".into());
-                        break;
-                    }
+                    // the call unwound (the mutex is poisoned from here on); the following calls are still made:
+                    // they must all report failure
+                    Err(_) => obs.push("p".into()),
                 }
             }
             writeln!(out, "{} {}", id, obs.join(" ")).unwrap();
@@ -699,7 +698,17 @@ fn main() {
             // `T <seed> <version> <threads>`: the machine is reset first, on this thread, and a snapshot is taken
             // before the threads start and after they have all finished
             let pre = capi_op("snap");
-            let s = capi_threads(&spec, seed);
+            // a last segment that starts with '!' is not a thread: it runs on this thread after all threads have
+            // finished (sequential calls that drain what the concurrent phase left)
+            let (threads, tail): (Vec<&str>, Option<&str>) = match spec.last() {
+                Some(l) if l.starts_with('!') => (spec[..spec.len() - 1].to_vec(), Some(&l[1..])),
+                _ => (spec.clone(), None),
+            };
+            let mut s = capi_threads(&threads, seed);
+            if let Some(t) = tail {
+                let outs: Vec<String> = t.split(',').filter(|x| !x.is_empty()).map(capi_op).collect();
+                s = format!("{} / {}", s, outs.join(","));
+            }
             let snap = capi_op("snap");
             writeln!(out, "{} {} / {} / {}", id, pre, s, snap).unwrap();
             out.flush().unwrap();
